@@ -17,14 +17,14 @@ def jobs(pid, mode, tier, defines=(), want=('free', 'ws', 'str', 'nest', 'wide')
         for n in range(0, N + 1):
             add('free%d' % n, [0, n], 'every byte string of length %d' % n, nproc=(1 if n <= 3 else 16), timeout=3000)
     if 'ws' in want:
-        ks = [1, 32, 33, 64, 65] if q else [1, 2, 29, 30, 31, 32, 33, 34, 35, 61, 62, 63, 64, 65, 66, 67, 127, 128, 129, 130]
+        ks = [1, 33, 64] if q else [1, 2, 29, 30, 31, 32, 33, 34, 35, 61, 62, 63, 64, 65, 66, 67, 127, 128, 129, 130]
         m = 3 if q else 4
         for k in ks:
-            for g in range(0, m + 1):
+            for g in (range(0, m + 1) if (not q or k == 1) else (1, 2)):
                 add('ws.m%d.k%d.g%d' % (m, k, g), [1, m, k, g], '%d symbolic whitespace bytes inserted at position %d of every %d-byte text' % (k, g, m),
                     nproc=2 if q else 4)
     if 'ws2' in want:
-        pairs = [(1, 2), (2, 2), (2, 3), (60, 2)]
+        pairs = [(1, 2), (2, 2)]
         if not q: pairs = [(a, b) for a in (0, 1, 2, 3) for b in (1, 2, 3)] + [(a, b) for a in (2, 5, 30, 58, 59, 60, 61, 62, 63, 64, 65) for b in (2, 3, 4, 5, 31, 62)]
         for a, b in pairs:
             add('ws2.a%d.b%d' % (a, b), [5, a, b], "'[' + %d whitespace bytes + 2 symbolic bytes + ',' + %d whitespace bytes + 2 symbolic bytes + ']' (whitespace bytes symbolic)" % (a, b), nproc=2)
